@@ -416,7 +416,7 @@ pub trait Machine: 'static {
     fn observe(s: &Self::S, plan: ObsPlan) -> Obs;
     /// The one-shot reference: a fresh state built by the documented batch entry point, plus the
     /// one-shot `ci(conf, data)` results for each requested confidence.
-    fn batch(recs: [&[Bits]; 2], plan: ObsPlan) -> (Self::S, Vec<(u8, Out<Iv>)>);
+    fn batch(recs: [&[Bits]; 2], plan: ObsPlan) -> Result<(Self::S, Vec<(u8, Out<Iv>)>), String>;
     /// value of record(s) in the accumulation space, in the element type (widened to f64), and
     /// its float-rounded square in the element type
     fn tspace(a: Bits, b: Bits) -> (f64, f64);
@@ -552,12 +552,12 @@ impl<F: Fl> Machine for MKahan<F> {
     fn observe(s: &Self::S, _plan: ObsPlan) -> Obs {
         vec![(What::Value, Val::f(s.value().w()))]
     }
-    fn batch(recs: [&[Bits]; 2], _plan: ObsPlan) -> (Self::S, Vec<(u8, Out<Iv>)>) {
+    fn batch(recs: [&[Bits]; 2], _plan: ObsPlan) -> Result<(Self::S, Vec<(u8, Out<Iv>)>), String> {
         let mut s = KahanSum::default();
         for &b in recs[0] {
             s += F::from_bits64(b);
         }
-        (s, vec![])
+        Ok((s, vec![]))
     }
     fn tspace(a: Bits, _b: Bits) -> (f64, f64) {
         let x = F::from_bits64(a);
@@ -727,15 +727,15 @@ macro_rules! mean_machine {
                 }
                 o
             }
-            fn batch(recs: [&[Bits]; 2], plan: ObsPlan) -> (Self::S, Vec<(u8, Out<Iv>)>) {
+            fn batch(recs: [&[Bits]; 2], plan: ObsPlan) -> Result<(Self::S, Vec<(u8, Out<Iv>)>), String> {
                 let xs: Vec<F> = vecf(recs[0]);
-                let st = <$T<F> as StatisticsOps<F>>::from_iter(&xs).expect("batch from_iter on valid data");
+                let st = <$T<F> as StatisticsOps<F>>::from_iter(&xs).map_err(|e| format!("from_iter over {} valid records answered Err({:?})", xs.len(), e))?;
                 let cis = plan
                     .confs
                     .iter()
                     .map(|&c| (c, call(|| <$T<F>>::ci(conf(c), &xs), |i| iv_f(&i))))
                     .collect();
-                (st, cis)
+                Ok((st, cis))
             }
             fn tspace(a: Bits, _b: Bits) -> (f64, f64) {
                 let x = F::from_bits64(a);
@@ -927,17 +927,17 @@ impl<F: Fl> Machine for MPaired<F> {
         }
         o
     }
-    fn batch(recs: [&[Bits]; 2], plan: ObsPlan) -> (Self::S, Vec<(u8, Out<Iv>)>) {
+    fn batch(recs: [&[Bits]; 2], plan: ObsPlan) -> Result<(Self::S, Vec<(u8, Out<Iv>)>), String> {
         let a: Vec<F> = vecf(recs[0]);
         let b: Vec<F> = vecf(recs[1]);
         let mut st = Paired::default();
-        st.extend(&a, &b).expect("batch Paired::extend on valid data");
+        st.extend(&a, &b).map_err(|e| format!("Paired::extend over {} valid pairs answered Err({:?})", a.len(), e))?;
         let cis = plan
             .confs
             .iter()
             .map(|&c| (c, call(|| Paired::ci(conf(c), &a, &b), |i| iv_f(&i))))
             .collect();
-        (st, cis)
+        Ok((st, cis))
     }
     fn tspace(a: Bits, b: Bits) -> (f64, f64) {
         let t = F::from_bits64(a) - F::from_bits64(b);
@@ -1139,16 +1139,16 @@ impl<F: Fl> Machine for MUnpaired<F> {
         }
         o
     }
-    fn batch(recs: [&[Bits]; 2], plan: ObsPlan) -> (Self::S, Vec<(u8, Out<Iv>)>) {
+    fn batch(recs: [&[Bits]; 2], plan: ObsPlan) -> Result<(Self::S, Vec<(u8, Out<Iv>)>), String> {
         let a: Vec<F> = vecf(recs[0]);
         let b: Vec<F> = vecf(recs[1]);
-        let st = Unpaired::from_iter(&a, &b).expect("batch Unpaired::from_iter on valid data");
+        let st = Unpaired::from_iter(&a, &b).map_err(|e| format!("Unpaired::from_iter over {} + {} valid records answered Err({:?})", a.len(), b.len(), e))?;
         let cis = plan
             .confs
             .iter()
             .map(|&c| (c, call(|| Unpaired::ci(conf(c), &a, &b), |i| iv_f(&i))))
             .collect();
-        (st, cis)
+        Ok((st, cis))
     }
     fn tspace(a: Bits, _b: Bits) -> (f64, f64) {
         let x = F::from_bits64(a);
@@ -1316,7 +1316,7 @@ impl Machine for MProp {
         }
         o
     }
-    fn batch(recs: [&[Bits]; 2], plan: ObsPlan) -> (Self::S, Vec<(u8, Out<Iv>)>) {
+    fn batch(recs: [&[Bits]; 2], plan: ObsPlan) -> Result<(Self::S, Vec<(u8, Out<Iv>)>), String> {
         let bs: Vec<bool> = recs[0].iter().map(|&b| b != 0).collect();
         let st: proportion::Stats = bs.iter().copied().collect();
         let n = bs.len();
@@ -1335,7 +1335,7 @@ impl Machine for MProp {
                 (c, r)
             })
             .collect();
-        (st, cis)
+        Ok((st, cis))
     }
     fn tspace(a: Bits, _b: Bits) -> (f64, f64) {
         (a as f64, a as f64)
@@ -1443,7 +1443,7 @@ impl Machine for MQuant {
         }
         o
     }
-    fn batch(recs: [&[Bits]; 2], plan: ObsPlan) -> (Self::S, Vec<(u8, Out<Iv>)>) {
+    fn batch(recs: [&[Bits]; 2], plan: ObsPlan) -> Result<(Self::S, Vec<(u8, Out<Iv>)>), String> {
         let n = recs[0].len();
         let st = quantile::Stats::new(n);
         // one-shot reference: ci_indices(conf, n, q) at the median
@@ -1452,7 +1452,7 @@ impl Machine for MQuant {
             .iter()
             .map(|&c| (c, call(|| quantile::ci_indices(conf(c), n, QUANTILES[2]), |i| iv_u(&i))))
             .collect();
-        (st, cis)
+        Ok((st, cis))
     }
     fn tspace(_a: Bits, _b: Bits) -> (f64, f64) {
         (1.0, 1.0)
